@@ -121,7 +121,7 @@ class Table(object):
                    msg, ctx.loc(f, getattr(node, 'ast', None)))
         return not extra and not missing
 
-    def undecided(self, rule, what, skip=None):
+    def undecided(self, rule, what, skip=None, force=()):
         """Every test whose branches transfer control is decided by the
         inputs (see joinlogic.undecided_tests)."""
         sd = self.ctx.sd
@@ -134,7 +134,9 @@ class Table(object):
                 st = getattr(s_, 'stmt', None) or st
             if isinstance(st, ast.If) and not any(
                     isinstance(x, _XFER) for b in st.body + st.orelse
-                    for x in ast.walk(b)) and not _has_effect(st, skip):
+                    for x in ast.walk(b)) and not _has_effect(st, skip) \
+                    and not any(x is e for b in st.body + st.orelse
+                                for x in ast.walk(b) for e in force):
                 continue
             if skip is not None and skip(n.ast) is True:
                 continue
